@@ -286,28 +286,17 @@ impl<M: Manager, W: From<Object<M>>> Pool<M, W> {
     }
 
     pub(crate) fn from_builder(builder: PoolBuilder<M, W>) -> Self {
+        #[cfg(deadpool_verif)]
+        use crate::verif::{AtomicUsize, Mutex, Semaphore};
         Self {
             inner: Arc::new(PoolInner {
                 manager: builder.manager,
-                #[cfg(deadpool_verif)]
-                slots: crate::verif::Mutex::new(Slots {
-                    vec: VecDeque::with_capacity(builder.config.max_size),
-                    size: 0,
-                    max_size: builder.config.max_size,
-                }),
-                #[cfg(deadpool_verif)]
-                users: crate::verif::AtomicUsize::new(0),
-                #[cfg(deadpool_verif)]
-                semaphore: crate::verif::Semaphore::new(builder.config.max_size),
-                #[cfg(not(deadpool_verif))]
                 slots: Mutex::new(Slots {
                     vec: VecDeque::with_capacity(builder.config.max_size),
                     size: 0,
                     max_size: builder.config.max_size,
                 }),
-                #[cfg(not(deadpool_verif))]
                 users: AtomicUsize::new(0),
-                #[cfg(not(deadpool_verif))]
                 semaphore: Semaphore::new(builder.config.max_size),
                 config: builder.config,
                 hooks: builder.hooks,
